@@ -270,6 +270,10 @@ def apply_contract(run, fi, sp, env, dyn_cls, silent=False):
             cond = eval_clause(run, specmod.Clause(sp.raises_iff), env, fi=fi, dyn_cls=dyn_cls)
             if run.branch(cond):
                 raise PyRaise(et, 'in ' + fi.qual)
+        elif sp.raises_only_if:
+            cond = eval_clause(run, specmod.Clause(sp.raises_only_if), env, fi=fi, dyn_cls=dyn_cls)
+            if run.branch(cond) and run.path.choice(2) == 1:
+                raise PyRaise(et, 'in ' + fi.qual)
         elif run.path.choice(2) == 1:
             raise PyRaise(et, 'in ' + fi.qual)
     if silent:
